@@ -25,7 +25,7 @@ theorem startsOf_resEvents (n : Name) (o : Outcome) : startsOf (resEvents n o) =
 theorem startsOf_teardown (l : List Name) : startsOf (l.map Ev.teardown) = [] := by
   induction l with
   | nil => rfl
-  | cons a t ih => simpa [startsOf, Ev.startName] using ih
+  | cons a t ih => simp [startsOf, Ev.startName]
 
 structure StepFacts (inp : RunInput) (s s' : Sys) : Prop where
   keep : KeepW (sentBack s) s s'
@@ -87,13 +87,6 @@ theorem applySel_toRun (inp : RunInput) (s : Sys) (n : Name) (nd : Node) (d : Se
 theorem processResult_toRun (inp : RunInput) (s : Sys) (n : Name) (nd : Node) :
     (processResult inp s n nd).toRun = s.toRun := by
   unfold processResult; cases inp.outcome n <;> rfl
-
-theorem start_not_in_selEvents (inp : RunInput) (n : Name) (nd : Node) (d : Sel) (b w : Nat) :
-    Ev.start b w ∉ selEvents inp n nd d := by
-  cases d <;> simp [selEvents, statusEv] <;> split <;> simp
-
-theorem start_not_in_resEvents (n : Name) (o : Outcome) (b w : Nat) : Ev.start b w ∉ resEvents n o := by
-  cases o <;> simp [resEvents]
 
 theorem serialStep_facts {inp : RunInput} {s s' : Sys} {perm : List Name}
     (hs : serialStep inp s perm = some s') : StepFacts inp s s' := by
